@@ -80,7 +80,7 @@ impl Prop for C07 {
         Some("tape")
     }
     fn rule(&self) -> String {
-        "stateful, model-based: generated transition system (bit-vector states up to 70 bits and array states, with/without init, init over earlier states, constant states, states without next) plus a tape-decoded history of <= 40 operations init(Zero|Random(seed)) / set(input, value) / step / get(state|input|output|bad|constraint|sub-expression) / take_snapshot / restore_snapshot(k) run on patronus::sim::Interpreter and on a reference model built on the independent evaluator; after every operation all observable expressions must agree. init(Random) values are read back once for init-less symbols, init-ed states are checked against their init expressions, and a second interpreter with the same seed must agree. restore must reproduce the state values of the snapshot (inputs are re-synchronised by reading them back) and the continuation is compared step by step. Non-trivial: history with a step after a set-input and a restore followed by a step, on a system with >= 2 states where one next function reads another state; distinct by hash of the tape.".into()
+        "stateful, model-based: generated transition system (bit-vector states up to 70 bits and array states, with/without init, init over earlier states, constant states, states without next) plus a tape-decoded history of <= 40 operations init(Zero|Random(seed)) / set(input, value) (one time in four: set(state, value)) / step / get(state|input|output|bad|constraint|sub-expression) / take_snapshot / restore_snapshot(k) run on patronus::sim::Interpreter and on a reference model built on the independent evaluator; after every operation all observable expressions must agree. init(Random) values are read back once for init-less symbols, init-ed states are checked against their init expressions, and a second interpreter with the same seed must agree. restore must reproduce the state values of the snapshot (inputs are re-synchronised by reading them back) and the continuation is compared step by step. Non-trivial: history with a step after a set-input and a restore followed by a step, on a system with >= 2 states where one next function reads another state; distinct by hash of the tape.".into()
     }
     fn budget(&self, tier: Tier) -> Budget {
         match tier {
@@ -187,10 +187,20 @@ impl Prop for C07 {
                     initialised = true;
                 }
                 1 => {
-                    if sys.inputs.is_empty() {
+                    // mostly an input; one time in four a bit-vector state is overwritten (`set` takes any
+                    // symbol: this is how a witness' initial state values are loaded into the simulator)
+                    let bv_states: Vec<ExprRef> =
+                        sys.states.iter().map(|s| s.symbol).filter(|s| s.get_type(ctx).is_bit_vector()).collect();
+                    let poke = initialised && !bv_states.is_empty() && t.chance(64);
+                    if !poke && sys.inputs.is_empty() {
                         continue;
                     }
-                    let i = sys.inputs[t.below(sys.inputs.len() as u32) as usize];
+                    let i = if poke {
+                        rec.label("set-on-a-state");
+                        bv_states[t.below(bv_states.len() as u32) as usize]
+                    } else {
+                        sys.inputs[t.below(sys.inputs.len() as u32) as usize]
+                    };
                     let Type::BV(w) = i.get_type(ctx) else { continue };
                     let v = Bv::new(w, t.bits(w));
                     hist.push(format!("set({}, {})", refeval::show(ctx, i), v.short()));
